@@ -228,4 +228,153 @@ theorem xld_pred_spelled (t : Val) (rl : Bool) {toksP : List Str} {p : Pos} {lc 
       (by simp) (fun j c kvs' hj fu hfu => hcont (gs ++ [.key name]) j c kvs' hj fu hfu) fu
       (by omega)
 
+/-! ### API level: the canonical path `P` of the record list starts with an index -/
+
+/-- the text `P ++ tail` (with or without a leading '/') of a position that starts with an index tokenises into its pieces;
+it does not start with '?' and is a path -/
+theorem xld_tokenize (p : Pos) (tailG : List GSeg) (hp : PlainPos p) (hhead : ∃ n rest, p = .idx n :: rest) (hg : GoodG tailG)
+    (lead : Str) (hlead : lead ∈ [[], slash]) :
+    tokenize (lead ++ renderPos p ++ sel2Render tailG) = sel2Toks (sel2Embed p ++ tailG) ∧
+    startsWith (lead ++ renderPos p ++ sel2Render tailG) ['?'] = false ∧
+    hasPathChar (lead ++ renderPos p ++ sel2Render tailG) = true := by
+  have hgood : GoodG (sel2Embed p ++ tailG) := (sel2_good_embed p hp).append hg
+  have hr : lead ++ renderPos p ++ sel2Render tailG = lead ++ sel2Render (sel2Embed p ++ tailG) := by
+    rw [sel2_render_append, sel2_render_embed, List.append_assoc]
+  rw [hr]
+  simp only [List.mem_cons, List.not_mem_nil, or_false] at hlead
+  rcases hlead with rfl | rfl
+  · obtain ⟨n, rest, rfl⟩ := hhead
+    have hb : sel2Render (sel2Embed (.idx n :: rest) ++ tailG)
+        = '[' :: (natStr n ++ ']' :: sel2Render (sel2Embed rest ++ tailG)) := by
+      simp [sel2Embed, sel2Render, sel2RenderSeg, bracket]
+    simp only [List.nil_append]
+    refine ⟨?_, ?_, ?_⟩
+    · rw [hb]; exact sel3_tokenize_render_br (natStr n) _ hgood
+    · rw [hb]; simp [startsWith]
+    · rw [hb]; simp [hasPathChar]
+  · exact ⟨sel2_tokenize _ hgood, sel2_noQ_cons _, sel2_hasPathChar_cons _⟩
+
+theorem xld_head_snoc {p' : Pos} {s : Seg} (hhead : ∃ n rest, p' ++ [s] = .idx n :: rest) (hs : ∃ name, s = .key name) : p' ≠ [] := by
+  rintro rfl
+  obtain ⟨n, rest, h⟩ := hhead
+  obtain ⟨name, rfl⟩ := hs
+  simp at h
+
+/-- **`P[*]/f` and `P/f` below a list root** (`P` canonical, starting with an index; with or without the leading '/') -/
+theorem xld_star_api (cls : Cls) (xs : List Val) (p : Pos) (f : Str) (lc : Cls) (rs : List Val) (d : Val)
+    (hp : PlainPos p) (hhead : ∃ n rest, p = .idx n :: rest) (hf : PlainKey f)
+    (hget : getAt (.list cls xs) p = some (.list lc rs)) (hrs : ∀ r ∈ rs, isDict r = true)
+    (fuel : Nat) (hfuel : fuel ≥ 2 * p.length + rs.length + 6) (lead : Str) (hlead : lead ∈ [[], slash]) :
+    ∀ xp ∈ [lead ++ renderPos p ++ bracket ['*'] ++ slash ++ f, lead ++ renderPos p ++ slash ++ f],
+      let vals := somes (rs.map (fieldOf f))
+      get fuel (.list cls xs) xp d = (.list cls xs, .ok (if vals.isEmpty then d else .list .n0 vals)) ∧
+      getItem fuel (.list cls xs) xp = (.list cls xs, if vals.isEmpty then .error .IndexError else .ok (.list .n0 vals)) ∧
+      first fuel (.list cls xs) xp d = (.list cls xs, .ok (firstOf vals d)) := by
+  intro xp hxp vals
+  simp only [List.mem_cons, List.not_mem_nil, or_false] at hxp
+  have hne : p ≠ [] := by obtain ⟨n, rest, rfl⟩ := hhead; simp
+  have hsp := sel3_spells_merged p (.list cls xs) _ hp hget
+  have hlen := mergedToks_length_le p
+  have hsel := fun rl => xld_star_spelled (.list cls xs) rl f ⟨cls, xs, rfl⟩ hsp (mergedToks_ne_nil p hne) hrs hf fuel (by omega)
+  rcases hxp with rfl | rfl
+  · have hg : GoodG [.br ['*'], .key f] := ⟨sel2_gBr_star, hf.gKey, trivial⟩
+    obtain ⟨htok0, hq, hpc⟩ := xld_tokenize p _ hp hhead hg lead hlead
+    have hxp : lead ++ renderPos p ++ bracket ['*'] ++ slash ++ f = lead ++ renderPos p ++ sel2Render [.br ['*'], .key f] := by
+      simp [sel2Render, sel2RenderSeg, slash, List.append_assoc]
+    rw [hxp]
+    obtain ⟨p', s, rfl⟩ : ∃ p' s, p = p' ++ [s] := ⟨p.dropLast, p.getLast hne, (List.dropLast_concat_getLast hne).symm⟩
+    obtain ⟨hp', hs⟩ := sel2_plainPos_append hp
+    cases s with
+    | key name =>
+      have hname : PlainKey name := hs.1
+      have htok : sel2Toks (sel2Embed (p' ++ [.key name]) ++ [.br ['*'], .key f]) = mergedToks p' ++ [name ++ bracket ['*'], f] := by
+        rw [sel2_embed_append]
+        simp only [sel2Embed, List.append_assoc, List.cons_append, List.nil_append]
+        rw [sel2_toks_append_key_br, sel2_toks_embed]
+        simp [sel2Toks]
+      refine xa_select_api cls xs _ _ vals d fuel hq hpc (htok0.trans htok) (fun rl => ?_)
+      exact (hsel rl).2 (mergedToks p') name (mergedToks_snoc_key p' name) hname
+        (mergedToks_ne_nil p' (xld_head_snoc hhead ⟨name, rfl⟩))
+    | idx m =>
+      have htok : sel2Toks (sel2Embed (p' ++ [.idx m]) ++ [.br ['*'], .key f]) = mergedToks (p' ++ [.idx m]) ++ [bracket ['*'], f] := by
+        rw [sel2_embed_append]
+        simp only [sel2Embed, List.append_assoc, List.cons_append, List.nil_append]
+        rw [sel2_toks_append_br_br, ← sel2_toks_embed, sel2_embed_append]
+        simp [sel2Toks, sel2Embed]
+      refine xa_select_api cls xs _ _ vals d fuel hq hpc (htok0.trans htok) (fun rl => ?_)
+      exact (hsel rl).1 _ (by simp)
+  · have hg : GoodG [.key f] := ⟨hf.gKey, trivial⟩
+    obtain ⟨htok0, hq, hpc⟩ := xld_tokenize p _ hp hhead hg lead hlead
+    have hxp : lead ++ renderPos p ++ slash ++ f = lead ++ renderPos p ++ sel2Render [.key f] := by
+      simp [sel2Render, sel2RenderSeg, slash, List.append_assoc]
+    rw [hxp]
+    have htok : sel2Toks (sel2Embed p ++ [.key f]) = mergedToks p ++ [f] := by
+      rw [sel2_toks_append_key, sel2_toks_embed]; simp [sel2Toks]
+    refine xa_select_api cls xs _ _ vals d fuel hq hpc (htok0.trans htok) (fun rl => ?_)
+    exact (hsel rl).1 _ (by simp)
+
+/-- **`P[k op v]/f` and `P/k[text() op v]/../f` below a list root** -/
+theorem xld_pred_api (cls : Cls) (xs : List Val) (p : Pos) (k f opx op vq v : Str) (lc : Cls) (rs : List Val) (d : Val)
+    (hp : PlainPos p) (hhead : ∃ n rest, p = .idx n :: rest) (hk : FieldKey k) (hf : PlainKey f) (hop : OpSpell opx op)
+    (hlit : LitSpell vq v) (hv : PlainLit v)
+    (hget : getAt (.list cls xs) p = some (.list lc rs)) (hrs : ∀ r ∈ rs, isDict r = true)
+    (hg : ∀ c kvs' kv, Val.dict c kvs' ∈ rs → lookup k kvs' = some kv → textGuard kv (.str v) = false)
+    (fuel : Nat) (hfuel : fuel ≥ 6 * p.length + rs.length + 14) (lead : Str) (hlead : lead ∈ [[], slash]) :
+    ∀ xp ∈ [lead ++ renderPos p ++ bracket (k ++ opx ++ vq) ++ slash ++ f,
+            lead ++ renderPos p ++ slash ++ k ++ bracket (sTextFn ++ opx ++ vq) ++ slash ++ ['.', '.'] ++ slash ++ f],
+      let vals := somes (rs.map (condOutcome k f op (.str v)))
+      get fuel (.list cls xs) xp d = (.list cls xs, .ok (if vals.isEmpty then d else .list .n0 vals)) ∧
+      getItem fuel (.list cls xs) xp = (.list cls xs, if vals.isEmpty then .error .IndexError else .ok (.list .n0 vals)) ∧
+      first fuel (.list cls xs) xp d = (.list cls xs, .ok (firstOf vals d)) := by
+  intro xp hxp vals
+  simp only [List.mem_cons, List.not_mem_nil, or_false] at hxp
+  have hne : p ≠ [] := by obtain ⟨n, rest, rfl⟩ := hhead; simp
+  have hsp := sel3_spells_merged p (.list cls xs) _ hp hget
+  have hlen := mergedToks_length_le p
+  have hsel := fun rl => xld_pred_spelled (.list cls xs) rl k f opx op vq v ⟨cls, xs, rfl⟩ hsp (mergedToks_ne_nil p hne) hk hf hop
+    hlit hv hrs hg fuel (by omega)
+  rcases hxp with rfl | rfl
+  · have hgd : GoodG [.br (k ++ opx ++ vq), .key f] := ⟨sel2_gBr_cond k opx op vq v hk.cond hop hlit hv, hf.gKey, trivial⟩
+    obtain ⟨htok0, hq, hpc⟩ := xld_tokenize p _ hp hhead hgd lead hlead
+    have hxp : lead ++ renderPos p ++ bracket (k ++ opx ++ vq) ++ slash ++ f
+        = lead ++ renderPos p ++ sel2Render [.br (k ++ opx ++ vq), .key f] := by
+      simp [sel2Render, sel2RenderSeg, slash, List.append_assoc]
+    rw [hxp]
+    obtain ⟨p', s, rfl⟩ : ∃ p' s, p = p' ++ [s] := ⟨p.dropLast, p.getLast hne, (List.dropLast_concat_getLast hne).symm⟩
+    obtain ⟨hp', hs⟩ := sel2_plainPos_append hp
+    cases s with
+    | key name =>
+      have hname : PlainKey name := hs.1
+      have htok : sel2Toks (sel2Embed (p' ++ [.key name]) ++ [.br (k ++ opx ++ vq), .key f])
+          = mergedToks p' ++ [name ++ bracket (k ++ opx ++ vq), f] := by
+        rw [sel2_embed_append]
+        simp only [sel2Embed, List.append_assoc, List.cons_append, List.nil_append]
+        rw [sel2_toks_append_key_br, sel2_toks_embed]
+        simp [sel2Toks]
+      refine xa_select_api cls xs _ _ vals d fuel hq hpc (htok0.trans htok) (fun rl => ?_)
+      exact (hsel rl).2 (mergedToks p') name (mergedToks_snoc_key p' name) hname
+        (mergedToks_ne_nil p' (xld_head_snoc hhead ⟨name, rfl⟩))
+    | idx m =>
+      have htok : sel2Toks (sel2Embed (p' ++ [.idx m]) ++ [.br (k ++ opx ++ vq), .key f])
+          = mergedToks (p' ++ [.idx m]) ++ [bracket (k ++ opx ++ vq), f] := by
+        rw [sel2_embed_append]
+        simp only [sel2Embed, List.append_assoc, List.cons_append, List.nil_append]
+        rw [sel2_toks_append_br_br, ← sel2_toks_embed, sel2_embed_append]
+        simp [sel2Toks, sel2Embed]
+      refine xa_select_api cls xs _ _ vals d fuel hq hpc (htok0.trans htok) (fun rl => ?_)
+      exact (hsel rl).1 _ (by simp)
+  · have hgd : GoodG [.key k, .br (sTextFn ++ opx ++ vq), .key ['.', '.'], .key f] :=
+      ⟨hk.plain.gKey, sel2_gBr_cond sTextFn opx op vq v condKey_text hop hlit hv, sel2_gKey_up, hf.gKey, trivial⟩
+    obtain ⟨htok0, hq, hpc⟩ := xld_tokenize p _ hp hhead hgd lead hlead
+    have hxp : lead ++ renderPos p ++ slash ++ k ++ bracket (sTextFn ++ opx ++ vq) ++ slash ++ ['.', '.'] ++ slash ++ f
+        = lead ++ renderPos p ++ sel2Render [.key k, .br (sTextFn ++ opx ++ vq), .key ['.', '.'], .key f] := by
+      simp [sel2Render, sel2RenderSeg, slash, List.append_assoc]
+    rw [hxp]
+    have htok : sel2Toks (sel2Embed p ++ [.key k, .br (sTextFn ++ opx ++ vq), .key ['.', '.'], .key f])
+        = mergedToks p ++ [k ++ bracket (sTextFn ++ opx ++ vq), ['.', '.'], f] := by
+      rw [sel2_toks_append_key_br, sel2_toks_embed]
+      simp [sel2Toks]
+    refine xa_select_api cls xs _ _ vals d fuel hq hpc (htok0.trans htok) (fun rl => ?_)
+    exact (hsel rl).1 _ (by simp)
+
 end N0.XPath
